@@ -49,7 +49,8 @@ private:
     using ComplexVector = Eigen::Matrix<Complex, Eigen::Dynamic, 1>;
     using SparseComplexMatrix = Eigen::SparseMatrix<Complex, Flags, StorageIndex>;
 
-    using ComplexSolver = Eigen::SparseLU<SparseComplexMatrix>;
+    // SparseLU requires column-major storage; compute() converts
+    using ComplexSolver = Eigen::SparseLU<Eigen::SparseMatrix<Complex, Eigen::ColMajor, StorageIndex>>;
 
     ConstGenericSparseMatrix m_mat;
     const Index m_n;
